@@ -134,23 +134,26 @@ def phase_script(r):
     r.shuffle(labels)
     procs = [{"type": "p%d" % i, "command": ["c%d" % i], "args": ["a"], "default": i == 0} for i in range(6)]
     procs += [{"type": "p%d" % i, "command": ["again-%d" % i], "args": [], "default": False} for i in (1, 4)]      # a process type defined twice
-    plan = []
+    groups = []
     for g in range(3):
+        grp = []
         for i in range(8):
-            plan.append(["provides", "prov-%d-%d" % (g, i)])
-            plan.append(["requires", "req-%d-%d" % (g, i), tomlw.tagged(dict(WIDE))])
+            grp.append(["provides", "prov-%d-%d" % (g, i)])
+            grp.append(["requires", "req-%d-%d" % (g, i), tomlw.tagged(dict(WIDE))])
             if i % 3 == 0:
-                plan.append(["requires", "req-%d-%d" % (g, i), tomlw.tagged({"again": i})])       # the same name required twice in one alternative
-        plan.append(["requires_hashmap", "from-hashmap-%d" % g, 12])
-        if g < 2:
+                grp.append(["requires", "req-%d-%d" % (g, i), tomlw.tagged({"again": i})])       # the same name required twice in one alternative
+        groups.append(grp)
+    small = [[["provides", "s%d" % k], ["requires", "s%d" % k, tomlw.tagged({"k": k})]] for k in range(4)]
+    # alternatives that are exact repetitions of an earlier one (of the main alternative, of another alternative, of the one just
+    # before) stay where they are: the build plan lists what the buildpack said, in the order it said it
+    alts = [groups[0], groups[1], small[0], groups[0], small[1], small[0], groups[2], groups[2], small[2], small[3], small[1]]
+    plan = []
+    for n, grp in enumerate(alts):
+        if n:
             plan.append(["or"])
-    # alternatives that repeat an earlier one (the first, and the one just before): they are kept, in this order
-    for rep_g in (0, 2):
-        plan.append(["or"])
-        plan.append(["provides", "prov-%d-0" % rep_g])
-        plan.append(["requires", "req-%d-0" % rep_g, tomlw.tagged({"again": 0})])
-    plan.append(["or"])
-    plan.append(["provides", "last-alternative"])
+        plan += [list(x) for x in grp]
+        if grp in groups:
+            plan.append(["requires_hashmap", "from-hashmap-%d" % groups.index(grp), 12])
     store = dict(WIDE)
     store["nested"] = dict(WIDE)
     return {"detect": {"result": "plan", "plan": plan},
